@@ -1023,11 +1023,9 @@ struct NPend {
 /// Reference DES of the net layer for channel-free, fault-free, task-free models: every handler buffers the events
 /// it emits in program order, the buffer is flushed after the handler, and the future event set follows the tie rule
 /// of the property (events scheduled for the current instant first, FIFO; otherwise by timestamp, then scheduling order).
-pub fn check_c03_net(prog: &NetProgram, res: &NetResult, info: &mut RunInfo) {
-    let prog = &normalise(prog);
-    if res.escaped_panic.is_some() || res.ok.is_none() {
-        return;
-    }
+/// Reference DES of the net layer for channel-free, restart-free models: the deliveries (module, beat | uid, time) in the
+/// order the scheduling history fixes, whether a module died on the way, the largest tie group.
+fn net_reference(prog: &NetProgram, res: &NetResult, info: &mut RunInfo) -> (Vec<(usize, u32, u64)>, Vec<bool>, usize) {
     let graph = build_graph(prog);
     let mut pend: Vec<NPend> = Vec::new();
     let mut seq = 0u64;
@@ -1141,6 +1139,67 @@ pub fn check_c03_net(prog: &NetProgram, res: &NetResult, info: &mut RunInfo) {
             }
         }
     }
+    (expect, dead, biggest_tie)
+}
+
+/// C02 at the net layer: emitting a message for a past instant is rejected, handlers never see the clock go back, and
+/// every message is handled at exactly the instant it was sent / scheduled for.
+pub fn check_c02_net(prog: &NetProgram, res: &NetResult, info: &mut RunInfo) {
+    let prog = &normalise(prog);
+    for r in &res.trace {
+        if let Ev::PastSend { uid, mode, back_ns, accepted } = &r.ev {
+            info.probe("message_for_a_past_instant_attempted");
+            if *accepted {
+                info.violate(Violation::new("C02", "past-send-accepted", format!(
+                    "module {} at {} ns: {}(message {uid:#x}, {back_ns} ns before the current simulated time) was accepted",
+                    r.m, r.t, if *mode == 0 { "send_at" } else { "schedule_at" })));
+                return;
+            }
+        }
+    }
+    if let Some(w) = res.trace.windows(2).find(|w| w[1].t < w[0].t) {
+        info.violate(Violation::new("C02", "clock-regress-net", format!(
+            "user code of module {} saw the clock at {} ns after user code of module {} had seen {} ns", w[1].m, w[1].t, w[0].m, w[0].t)));
+        return;
+    }
+    if res.escaped_panic.is_some() || res.ok.is_none() {
+        return;
+    }
+    let (expect, _dead, _) = net_reference(prog, res, info);
+    let mut want: std::collections::BTreeMap<(usize, u32), Vec<u64>> = std::collections::BTreeMap::new();
+    for (m, id, t) in &expect {
+        want.entry((*m, *id)).or_default().push(*t);
+    }
+    let mut got: std::collections::BTreeMap<(usize, u32), Vec<u64>> = std::collections::BTreeMap::new();
+    for r in &res.trace {
+        match &r.ev {
+            Ev::Beat { i, .. } => got.entry((r.m as usize, 0x8000_0000 | u32::from(*i))).or_default().push(r.t),
+            Ev::Recv { uid, .. } => got.entry((r.m as usize, *uid)).or_default().push(r.t),
+            _ => {}
+        }
+    }
+    // which events run at all is not this property's statement
+    if want.keys().ne(got.keys()) || want.iter().any(|(k, v)| v.len() != got[k].len()) {
+        return;
+    }
+    for (k, v) in &want {
+        if let Some(pos) = v.iter().zip(got[k].iter()).position(|(a, b)| a != b) {
+            info.violate(Violation::new("C02", "handler-clock-net", format!(
+                "module {} handled {:#x} with the clock at {} ns, it was sent / scheduled for {} ns", k.0, k.1, got[k][pos], v[pos])));
+            return;
+        }
+    }
+    info.probe("net_handler_clock_checked");
+    info.events += res.ok.map_or(0, |o| o.1 as u64);
+    info.nontrivial = true;
+}
+
+pub fn check_c03_net(prog: &NetProgram, res: &NetResult, info: &mut RunInfo) {
+    let prog = &normalise(prog);
+    if res.escaped_panic.is_some() || res.ok.is_none() {
+        return;
+    }
+    let (expect, dead, biggest_tie) = net_reference(prog, res, info);
     let got: Vec<(usize, u32, u64)> = res
         .trace
         .iter()
